@@ -35,7 +35,8 @@ RepeatKinds == {"repint", "repbuf"}
 Spawn(st, tk) ==
   LET hn == NextNode(st)
       st1 == AddNode(st, [Node("hinfo", 0) EXCEPT !.m = "arc", !.f = TRUE, !.g = FALSE]) IN
-  [st1 EXCEPT !.tasks = Append(@, [tk EXCEPT !.hn = hn]), !.timerlog = IF tk.kind \in RepeatKinds THEN Append(@, tk.p) ELSE @]
+  [st1 EXCEPT !.tasks = Append(@, [tk EXCEPT !.hn = hn]),
+              !.timerlog = IF tk.kind \in RepeatKinds THEN Append(@, tk.fur - st.now) ELSE @]
 
 Runnable(st, k) ==
   LET tk == st.tasks[k] IN
@@ -226,8 +227,10 @@ SchedSub(st, fr) ==
              st2 == Spawn(st1, [Task("repbuf", 0, -1, id) EXCEPT !.p = per, !.fur = st.now + per])
              st3 == RetSub(st2, SubRec("task", Len(st2.nodes), 0)) IN
          Push(st3, <<Sub(S1(x), id), F0("mkzip")>>)
-    [] o = "interval" ->         \* a = period, b = initial delay (-1: none); the period timer is armed when the task is built
-         LET st1 == Spawn(st, [Task("repint", 0, PB(x), n) EXCEPT !.p = PA(x), !.fur = st.now + PA(x)]) IN
+    [] o = "interval" ->         \* a = period, b = initial delay (-1: none); the first period timer is armed when the task is
+                                 \* built: one period for interval(), nothing for interval_at (first tick when the delay is over)
+         LET first == IF PB(x) >= 0 THEN 0 ELSE PA(x)
+             st1 == Spawn(st, [Task("repint", 0, PB(x), n) EXCEPT !.p = PA(x), !.fur = st.now + first, !.x = first]) IN
          RetSub(st1, SubRec("task", Len(st1.nodes), 0))
     [] o = "timer" -> SpawnOnce(st, "timer", PA(x), n, 0, 0, "", PV(x))
     [] o = "from_future" ->
@@ -242,8 +245,8 @@ SchedInject(st0, s) ==
   CASE s.k = "adv" -> [st0 EXCEPT !.now = @ + s.a]
     [] s.k = "run" -> Push(st0, <<F1("runone", s.a)>>)
     [] s.k = "runall" -> Push(st0, <<F2("runall", 1, 0)>>)
-    [] s.k = "fresolve" ->        \* the scripted future a becomes ready with (t, v)
-         [st0 EXCEPT !.futs[s.a] = <<<<s.t, s.v>>>>]
+    [] s.k = "fresolve" ->        \* the scripted future a becomes ready with (t, v); a future resolves once
+         IF st0.futs[s.a] = <<>> THEN [st0 EXCEPT !.futs[s.a] = <<<<s.t, s.v>>>>] ELSE st0
     [] s.k = "spush" ->           \* the scripted stream a yields an item / an error / its end
          [st0 EXCEPT !.streams[s.a] = Append(@, <<s.t, s.v>>)]
     [] OTHER -> Fault(st0, "spec:unknown-sched-stimulus")
